@@ -591,8 +591,19 @@ DEFAULT_WEIGHTS = {
 }
 
 
+class NoChoice(Exception):
+    """The world offers nothing to pick from (e.g. every branch is gone)."""
+
+
 def draw_steps(data, hist, weights=None, max_prs=4):
     """Draw one step or one macro (list of plain steps)."""
+    try:
+        return _draw_steps(data, hist, weights, max_prs)
+    except NoChoice:
+        return [{'op': 'fresh'}]
+
+
+def _draw_steps(data, hist, weights=None, max_prs=4):
     w = hist.world
     wt = dict(DEFAULT_WEIGHTS)
     wt.update(weights or {})
@@ -613,6 +624,8 @@ def draw_steps(data, hist, weights=None, max_prs=4):
             macro = 'merge_queue'
 
     def pick(seq, label):
+        if not seq:
+            raise NoChoice(label)
         return seq[data.draw(st.integers(0, len(seq) - 1), label=label)]
 
     if macro == 'advance':
@@ -677,6 +690,8 @@ def draw_step(data, hist, weights=None, max_prs=4):
         x -= wt[op]
 
     def pick(seq, label):
+        if not seq:
+            raise NoChoice(label)
         return seq[data.draw(st.integers(0, len(seq) - 1), label=label)]
 
     if op == 'open_pr':
